@@ -1,6 +1,6 @@
 (* Judge of the L0 tie: the whole-formatter model Fmt0.format0 (extracted) against the binary, byte for byte; and the source
    text against the tree (erasure and comment census), so that the theorems about the tree speak about the text that was formatted.
-   L0 <id> <windows> <spaces> <indent width> <quote style> <tree> <source hex> <status> <output hex> *)
+   L0 <id> <windows> <spaces> <indent width> <quote style>/<call_parentheses>/<space_after_function_names> <tree> <source hex> <status> <output hex> *)
 open Util
 open Fmt0
 let uop = function "-" -> Expr.Neg | "not" -> Expr.Not | "#" -> Expr.Len | "~" -> Expr.BNot | s -> failwith ("uop " ^ s)
@@ -13,7 +13,7 @@ let rec e = function
   | Lst [A "nil"] -> ENil | Lst [A "true"] -> ETrue | Lst [A "false"] -> EFalse | Lst [A "va"] -> EVararg
   | Lst [A "num"; A h] -> ENum (unhex h) | Lst [A "str"; A h] -> EStr (unhex h) | Lst [A "name"; A h] -> EName (unhex h)
   | Lst [A "field"; p; A h] -> EField (e p, unhex h) | Lst [A "index"; p; k] -> EIndex (e p, e k)
-  | Lst [A "call"; f; Lst a] -> ECall (e f, L.map e a) | Lst [A "method"; o; A m; Lst a] -> EMethod (e o, unhex m, L.map e a)
+  | Lst [A "call"; f; A sg; Lst a] -> ECall (e f, sg = "1", L.map e a) | Lst [A "method"; o; A m; A sg; Lst a] -> EMethod (e o, unhex m, sg = "1", L.map e a)
   | Lst [A "un"; A u; x] -> EUn (uop u, e x) | Lst [A "bin"; A b; l; r] -> EBin (bop b, e l, e r) | Lst [A "paren"; x] -> EParen (e x)
   | Lst [A "table"; Lst fs] -> ETable (L.map e fs)
   | Lst [A "fpos"; x] -> FPos (e x) | Lst [A "fnamed"; A n; x] -> FNamed (unhex n, e x) | Lst [A "fkey"; k; x] -> FKey (e k, e x)
@@ -46,8 +46,11 @@ let handle line = match words line with
     incr records;
     if status <> "ok" then report ("format-" ^ status) id
     else begin
+      let style, callp, space = match Stdlib.String.split_on_char '/' style with [a; b; c] -> a, b, c | _ -> failwith "options" in
       let cfg = { windows0 = (win = "1"); spaces0 = (spaces = "1"); width0 = int_to_nat (int_of_string width);
-                  style0 = (match style with "AutoPreferDouble" -> QuoteMore.AutoDouble | "AutoPreferSingle" -> QuoteMore.AutoSingle | "ForceDouble" -> QuoteMore.ForceDouble | _ -> QuoteMore.ForceSingle) } in
+                  style0 = (match style with "AutoPreferDouble" -> QuoteMore.AutoDouble | "AutoPreferSingle" -> QuoteMore.AutoSingle | "ForceDouble" -> QuoteMore.ForceDouble | "ForceSingle" -> QuoteMore.ForceSingle | _ -> failwith "style");
+                  callp0 = (match callp with "Always" -> CallForm.Always | "NoSingleString" -> CallForm.NoSingleString | "NoSingleTable" -> CallForm.NoSingleTable | "None" -> CallForm.NoneM | "Input" -> CallForm.Input | _ -> failwith "callp");
+                  space0 = (match space with "Never" -> CallForm.SNever | "Definitions" -> CallForm.SDefinitions | "Calls" -> CallForm.SCalls | "Always" -> CallForm.SAlways | _ -> failwith "space") } in
       match (try Some (blk (Sexp.parse tree)) with Failure _ -> None) with
       | None -> report "unreadable-tree" id
       | Some p ->
